@@ -42,7 +42,86 @@ class _Opt:
         pass
 
 
-def stopping(I, n=5, criterion="absolute", ev_period=1, es_period=1, source="metric", deprecated=False, twin=False, other_stop=False):
+class Box:
+    """a MUTABLE number, as a 0-dim tensor returned by a user metric is: arithmetic gives new objects, the in-place operators
+    change the object itself (so a stopper that computes with `-=` on a recorded value rewrites the evaluator's history)"""
+
+    def __init__(self, v):
+        self.v = v
+
+    @staticmethod
+    def _u(o):
+        return o.v if isinstance(o, Box) else o
+
+    def __sub__(self, o):
+        return Box(self.v - Box._u(o))
+
+    def __rsub__(self, o):
+        return Box(Box._u(o) - self.v)
+
+    def __add__(self, o):
+        return Box(self.v + Box._u(o))
+
+    __radd__ = __add__
+
+    def __mul__(self, o):
+        return Box(self.v * Box._u(o))
+
+    __rmul__ = __mul__
+
+    def __truediv__(self, o):
+        return Box(self.v / Box._u(o))
+
+    def __rtruediv__(self, o):
+        return Box(Box._u(o) / self.v)
+
+    def __neg__(self):
+        return Box(-self.v)
+
+    def __abs__(self):
+        return Box(abs(self.v))
+
+    def __isub__(self, o):
+        self.v = self.v - Box._u(o)
+        return self
+
+    def __iadd__(self, o):
+        self.v = self.v + Box._u(o)
+        return self
+
+    def __imul__(self, o):
+        self.v = self.v * Box._u(o)
+        return self
+
+    def __itruediv__(self, o):
+        self.v = self.v / Box._u(o)
+        return self
+
+    def __lt__(self, o):
+        return self.v < Box._u(o)
+
+    def __le__(self, o):
+        return self.v <= Box._u(o)
+
+    def __gt__(self, o):
+        return self.v > Box._u(o)
+
+    def __ge__(self, o):
+        return self.v >= Box._u(o)
+
+    def __eq__(self, o):
+        return self.v == Box._u(o)
+
+    def __ne__(self, o):
+        return self.v != Box._u(o)
+
+    __hash__ = None
+
+    def __format__(self, spec):
+        return "<box>"
+
+
+def stopping(I, n=5, criterion="absolute", ev_period=1, es_period=1, source="metric", deprecated=False, twin=False, other_stop=False, boxed=False):
     import torch
     from qucumber.callbacks import MetricEvaluator, ObservableEvaluator, EarlyStopping, VarianceBasedEarlyStopping, LambdaCallback
     from qucumber.observables import SigmaZ
@@ -53,7 +132,7 @@ def stopping(I, n=5, criterion="absolute", ev_period=1, es_period=1, source="met
     st = _bare()
     it = iter(range(n))
     if source == "metric":
-        ev = MetricEvaluator(ev_period, {"m": lambda s: vals[next(it)]})
+        ev = MetricEvaluator(ev_period, {"m": (lambda s: Box(vals[next(it)])) if boxed else (lambda s: vals[next(it)])})
         name = "m"
     else:
         ev = ObservableEvaluator(ev_period, [SigmaZ()], num_samples=1)
@@ -205,6 +284,11 @@ def specs(tier):
                       kwargs=dict(n=n, criterion="variance", ev_period=pe, es_period=ps, source="observable"), inputs=inputs(True)))
     S.append(dict(name="deprecated-class", module="checks.c18", function="stopping",
                   kwargs=dict(n=n, criterion="variance", source="observable", deprecated=True), inputs=inputs(True)))
+    # metric values that are mutable objects (0-dim tensors): the stopper must not change the recorded history by computing with it
+    for crit, pe, ps in (("absolute", 2, 1), ("relative", 1, 1), ("absolute", 1, 1)):
+        S.append(dict(name="%s-mutable-metric-values-ev%d-es%d" % (crit, pe, ps), module="checks.c18", function="stopping",
+                      kwargs=dict(n=4, criterion=crit, ev_period=pe, es_period=ps, source="metric", boxed=True),
+                      inputs={**{"v%d" % i: ("real", -100, 100) for i in range(4)}, "tol": ("real", 0, 1000), "patience": ("int", 1, 2)}))
     S.append(dict(name="absolute-with-other-stopper", module="checks.c18", function="stopping", kwargs=dict(n=n, criterion="absolute", source="metric", other_stop=True),
                   inputs=dict(inputs(False), other_at=("int", 0, n))))
     S.append(dict(name="construction", module="checks.c18", function="construction", kwargs={}, inputs={"patience": ("int", 1, pmax)}))
